@@ -485,7 +485,7 @@ func (st *ex6State) handler(sv *ex6Server) server6.Handler {
 				rep.TransactionID[2] ^= 0x40
 				s.Fault("reply-wrong-xid")
 			}
-			b := rep.ToBytes()
+			b := fixIAAddr6(rep.ToBytes(), ip)
 			if t.Coin(1, 20) {
 				b = b[:t.Choose(len(b))]
 				s.Fault("reply-truncated")
@@ -494,6 +494,40 @@ func (st *ex6State) handler(sv *ex6Server) server6.Handler {
 			conn.WriteTo(b, peer)
 		}
 	}
+}
+
+// fixIAAddr6 writes the address the scripted server means to hand out into every IA
+// address option of the IA_NAs of an encoded reply, with the harness's own TLV writer:
+// what is on the wire must not depend on how the library under test encodes an address.
+func fixIAAddr6(b []byte, ip net.IP) []byte {
+	if len(b) < 4 || ip.To16() == nil {
+		return b
+	}
+	opts, ok := splitV6Opts(b[4:])
+	if !ok {
+		return b
+	}
+	changed := false
+	for i, o := range opts {
+		if o.code != 3 || len(o.val) < 12 {
+			continue
+		}
+		sub, ok := splitV6Opts(o.val[12:])
+		if !ok {
+			continue
+		}
+		for j, so := range sub {
+			if so.code == 5 && len(so.val) >= 24 {
+				copy(sub[j].val[0:16], ip.To16())
+				changed = true
+			}
+		}
+		opts[i].val = append(append([]byte(nil), o.val[:12]...), joinV6Opts(sub)...)
+	}
+	if !changed {
+		return b
+	}
+	return append(append([]byte(nil), b[:4]...), joinV6Opts(opts)...)
 }
 
 // ---------------------------------------------------------------- oracle
